@@ -12,6 +12,7 @@ def run(chk):
     from . import wrapper_contracts
     wrapper_contracts.control_signals_not_exceptions(chk, "C10")
     state_contracts.create_checkpoint(chk, "C10", want=("C10",))
+    state_contracts.merge_all_pages(chk, "C10")            # links of operations that already exist (history, checkpoint responses) are registered too
     for kind in ("step", "child", "wfc"):
         ex = explore(kind)
         handler_preamble(chk, ex, FUNCS[kind])
